@@ -349,7 +349,9 @@ static void body(void)
 			snprintf(key, sizeof key, "C10/leak/memory/%s/%s", n_deferred ? "deferred-callback-queued-at-base-free" : "nothing-queued-at-base-free", w->name);
 			mc_fail(key, "%ld library allocation(s) left after event_base_free + libevent_global_shutdown (%d deferred callback(s) were queued when event_base_free was called)", live1 - live0, n_deferred);
 		}
-		{ int nfd; if (fd_sig(&nfd) != fd0) mc_fail("C10/leak/fd", "fd table differs from the baseline (%d descriptors open below 128)", nfd); }
+		{ int nfd; if (fd_sig(&nfd) != fd0)
+			mc_fail(n_deferred ? "C10/leak/fd/deferred-callback-queued-at-base-free" : "C10/leak/fd/nothing-queued-at-base-free",
+			    "fd table differs from the baseline (%d descriptors open below 128)", nfd); }
 		if (locks_live() != 0 || locks_conds_live() != 0)
 			mc_fail(n_deferred ? "C10/leak/locks/deferred-callback-queued-at-base-free" : "C10/leak/locks/nothing-queued-at-base-free",
 			    "%d lock(s) and %d condition(s) still allocated", locks_live(), locks_conds_live());
